@@ -42,6 +42,10 @@ pub fn add_stats(a: &mut Stats, b: &Stats) {
     a.worlds_confirmed += b.worlds_confirmed;
     a.naf_calls += b.naf_calls;
     a.normalized_fallbacks += b.normalized_fallbacks;
+    a.cross_checked += b.cross_checked;
+    a.cross_agree += b.cross_agree;
+    a.cross_unknown += b.cross_unknown;
+    a.cross_disagree += b.cross_disagree;
 }
 
 thread_local! {
